@@ -50,4 +50,17 @@ Lemma family_iff_supported : forall n t j, realisable n t j = true ->
   (select_family n t = None <-> supported_types n t j = None).
 Proof. intros n t j. destruct n, t, j; vm_compute; intros; try discriminate; split; intros; try discriminate; auto. Qed.
 
+(* non-vacuity: the hypothesis holds for six of the eight masks and the observations differ between them *)
+Example ex20_realisable : realisable true false true = true /\ realisable false true false = true /\ realisable false true true = false.
+Proof. repeat split. Qed.
+Example ex20_observations_differ :
+  o_import_ok (observed false false false) = false /\ o_import_error (observed false false false) = true /\
+  same_libs (o_supported (observed true true false)) [LNumpy; LTorch] = true /\
+  cls_lookup CBFloat16 (o_classes (observed true false false)) = Some None /\
+  match cls_lookup CBFloat16 (o_classes (observed false true false)) with Some (Some l) => dtoks_eqb l [TO KBF16] | _ => false end = true.
+Proof. vm_compute. repeat split. Qed.
+(* [config_ok] is not trivially true: it refuses the torch-only observation for a numpy-only installation *)
+Example ex20_config_ok_discriminates :
+  forallb (class_ok true false (observed false true false)) all_cls = false.
+Proof. vm_compute. reflexivity. Qed.
 Redirect "C20.assumptions.1" Print Assumptions C20_config.
